@@ -135,6 +135,23 @@ def build_att_cases(fmt):
             lw = c.op('*', 'put_att', f=0, v=-1, name='g%d' % mi, xtype=D.XT_NAME[X], n=len(vals2), vals=','.join(fmtv(x) for x in vals2))
             lg2 = c.op('*', 'get_att', f=0, v=-1, name='g%d' % mi, mem=M)
             ctx.append(('get', M, vals2, lw, lg2, 'att'))
+        # the same conversions when an existing attribute is overwritten in data mode (the header is rewritten at once),
+        # and what a second open of the file finds afterwards
+        c.op('*', 'enddef', f=0)
+        later = []
+        for mi, M in enumerate(MEMS):
+            vals = values_for(C.MEM[M], xd, 4096)
+            if C.MEM[M][1] == 8: vals = vals[::5] + [vals[-1]]
+            rv = list(reversed(vals))
+            lp = c.op('*', 'put_att', f=0, v=-1, name='p%d' % mi, xtype=D.XT_NAME[X], mem=M, n=len(rv), vals=','.join(fmtv(x) for x in rv))
+            lg = c.op('*', 'get_att', f=0, v=-1, name='p%d' % mi)
+            ctx.append(('put', M, rv, lp, lg, 'att'))
+            later.append((mi, M, rv, lp))
+        c.op('*', 'close', f=0)
+        c.op('*', 'open', f=0, path='a.nc', write=0)
+        for mi, M, rv, lp in later:
+            lg = c.op('*', 'get_att', f=0, v=-1, name='p%d' % mi)
+            ctx.append(('put', M, rv, lp, lg, 'att'))
         c.op('*', 'close', f=0)
         cases.append((c, ctx, X, fmt))
     return cases
@@ -169,9 +186,9 @@ def main(tier=None):
     ck = Check('C09', 'exploration', tier)
     b = build.build('plain')
     thorough = ck.tier == 'thorough'
-    stride16 = 1 if thorough else 8
+    stride16 = 1 if thorough else 2
     allc = []
-    for fmt in (2, 5): allc += build_var_cases(fmt, stride16) + build_att_cases(fmt)
+    for fmt in ((1, 2, 5) if thorough else (2, 5)): allc += build_var_cases(fmt, stride16) + build_att_cases(fmt)
     chars = [build_char_cases(fmt) for fmt in (1, 5)]
     results = runner.run_cases(b['vx'], [x[0] for x in allc] + [x[0] for x in chars], batch=2, timeout=600)
     nconv = 0; pairs = set()
@@ -210,9 +227,9 @@ def main(tier=None):
         if r.r(0, lg).vals() != [72, 105]: ck.violation(('value', 'text', 'round trip'), c.text(), c.name + ': text round trip gives %s' % r.r(0, lg).vals())
     ck.cov['distinct_nontrivial'] = len(pairs)
     ck.cov['element_conversions'] = nconv; ck.cov['bulk_calls'] = ck.cov['evaluations']; ck.cov['evaluations'] = nconv
-    ck.cov['rule'] = ('all numeric external types x 11 memory types x {put,get} x {variable, attribute} x {CDF-2, CDF-5}; source values: all values of 8-bit types, %s values of 16-bit types, and for wider types the closed '
+    ck.cov['rule'] = ('all numeric external types x 11 memory types x {put,get} x {variable, attribute (new in define mode, overwritten in data mode, re-read after reopen)} x {CDF-2, CDF-5} (thorough: + CDF-1); source values: all values of 8-bit types, %s values of 16-bit types, and for wider types the closed '
                       'boundary set (bounds of both types +-2, 0, +-1, 2^k and 2^k+-1 up to 2^64, fractional fringes, FLT_MAX and neighbours, DBL_MAX, subnormals, +-0.0, NaN, +-Inf); exact oracle with Python integers/fractions; '
-                      'distinct_nontrivial = distinct (format, external type, memory type, direction, object) combinations' % ('all' if stride16 == 1 else 'every 8th plus boundary'))
+                      'distinct_nontrivial = distinct (format, external type, memory type, direction, object) combinations' % ('all' if stride16 == 1 else 'every 2nd plus boundary'))
     ck.sample(allc[0][0].text()[:1500])
     ck.assumptions += ['two-valued zones (fractional fringe of an integer destination, doubles rounding to FLT_MAX, +-Inf to float) accept either the exact converted value or NC_ERANGE + fill, nothing else',
                        'NC_FILL of memory type long: INT64 or INT fill accepted']
